@@ -3,7 +3,7 @@
    anonymous names, and yields the same tree of instances - same prefixes, instance names, signal tables, lengths and
    ports - in which every component is the old one with _Anon(k) renamed to _Anon(ctr' + (k - ctr)), uniformly. *)
 From Coq Require Import List String Ascii Arith Bool ZArith Lia.
-From PC Require Import Base.Sexp Comp.Syntax Comp.Struct Comp.Compile Comp.EmitProofs Comp.WfPil Comp.CompileProofs Hist.Purity Hist.Renumber
+From PC Require Import Base.Sexp Comp.Syntax Comp.Struct Comp.Compile Comp.EmitProofs Comp.WfPil Comp.CompileProofs Hist.Purity Hist.Renumber Hist.RenumberEmit Design.SysFinish
   Subst.VarSubst Run.RC13 Run.RComp Sys.System Sys.FixSys.
 Import ListNotations.
 Local Open Scope string_scope.
@@ -54,7 +54,8 @@ Fixpoint osim (ctr ctr' : nat) (f : nat) (o o' : obj) : Prop :=
   | O => False
   | S f =>
       match o, o' with
-      | OComp c, OComp c' => exists lo hi, ctr <= lo /\ c' = r_comp (rho_c lo hi (ctr' + (lo - ctr))) c /\ ports_same c c'
+      | OComp c, OComp c' => exists lo hi lo', ctr <= lo /\ lo' = ctr' + (lo - ctr) /\ c' = r_comp (rho_c lo hi lo') c /\ ports_same c c' /\
+                             (user_keys (c_strands c) -> emit_comp c' = map (map_line (ren_name (c_prefix c) (rho_c lo hi lo'))) (emit_comp c))
       | OSys p comps sigs lens i oo, OSys p' comps' sigs' lens' i' oo' =>
           p' = p /\ sigs' = sigs /\ lens' = lens /\ i' = i /\ oo' = oo /\ crel (osim ctr ctr' f) comps comps'
       | _, _ => False
@@ -64,7 +65,7 @@ Fixpoint osim (ctr ctr' : nat) (f : nat) (o o' : obj) : Prop :=
 Lemma osim_rebase ctr ctr' k : ctr <= k -> forall f o o', osim k (ctr' + (k - ctr)) f o o' -> osim ctr ctr' f o o'.
 Proof. intros L. induction f as [|f IH]; intros o o' H; [destruct H|].
   destruct o as [c|p comps sigs lens i oo], o' as [c'|p' comps' sigs' lens' i' oo']; simpl in H; try contradiction; simpl.
-  - destruct H as [lo [hi [A [B C]]]]. exists lo, hi. split; [lia|]. split; [|exact C]. rewrite B. f_equal. f_equal. lia.
+  - destruct H as [lo [hi [lo' [A [B C]]]]]. exists lo, hi, lo'. split; [lia|]. split; [lia | exact C].
   - destruct H as (-> & -> & -> & -> & -> & C). repeat split. clear - C IH. induction C as [|x y a b [E R] _ IHc]; constructor; [split; [exact E | apply IH, R] | exact IHc]. Qed.
 Lemma osim_fuel ctr ctr' : forall f o o', osim ctr ctr' f o o' -> osim ctr ctr' (S f) o o'.
 Proof. induction f as [|f IH]; intros o o' H; [destruct H|].
@@ -75,7 +76,7 @@ Proof. induction f as [|f IH]; intros o o' H; [destruct H|].
 Lemma osim_ports ctr ctr' f o o' : osim ctr ctr' f o o' -> obj_ports o' = obj_ports o.
 Proof. destruct f as [|f]; intros H; [destruct H|].
   destruct o as [c|p comps sigs lens i oo], o' as [c'|p' comps' sigs' lens' i' oo']; simpl in H; try contradiction; simpl.
-  - destruct H as [lo [hi [_ [_ [A [B _]]]]]]. apply (f_equal (@List.length _)) in A. apply (f_equal (@List.length _)) in B. rewrite !map_length in A, B. congruence.
+  - destruct H as [lo [hi [lo' [_ [_ [_ [[A [B _]] _]]]]]]]. apply (f_equal (@List.length _)) in A. apply (f_equal (@List.length _)) in B. rewrite !map_length in A, B. congruence.
   - destruct H as (-> & -> & -> & -> & -> & _). reflexivity. Qed.
 
 Lemma bind_comp_same c c' cname : forall gs ls sigs lens, (forall x, In x ls -> ref_len c' x = ref_len c x) ->
@@ -112,7 +113,7 @@ Proof. intros LD. induction stmts as [|s rest IH]; intros prefix new_path templ 
                    | OComp c => bind_comp c cname (cins ++ couts) (map fst (c_ins c) ++ map fst (c_outs c)) sigs lens
                    | OSys _ _ _ ilens iins iouts => bind_sys ilens cname (cins ++ couts) (iins ++ iouts) sigs lens end)).
       { destruct f as [|f']; [destruct R|]. destruct o as [c|p comps0 sigs0 lens0 i0 oo0], o' as [c'|p' comps0' sigs0' lens0' i0' oo0']; simpl in R; try contradiction.
-        - destruct R as [lo [hi [_ [_ [A [B0 PL]]]]]]. rewrite A, B0. apply bind_comp_same. exact PL.
+        - destruct R as [lo [hi [lo' [_ [_ [_ [[A [B0 PL]] _]]]]]]]. rewrite A, B0. apply bind_comp_same. exact PL.
         - destruct R as (-> & -> & -> & -> & -> & _). reflexivity. }
       rewrite B. destruct (match o with OComp c => _ | OSys _ _ _ ilens iins iouts => _ end) as [sl|]; [|discriminate]. cbn [bind] in H |- *.
       assert (C2 : crel (osim ctr ctr' f) (comps ++ [(cname, o)]) (comps' ++ [(cname, o')])).
@@ -130,7 +131,8 @@ Proof. induction f as [|f IH]; intros ctr b args prefix path o ctr1 H ctr'; [dis
     destruct (compile_comp ctr prefix dd bd) as [[c k1]|] eqn:CC; [|discriminate]. cbn [bind fst snd] in H. inversion H; subst.
     destruct (compile_renumber_ports ctr ctr' prefix dd bd c ctr1 CC) as [M PS]. split; [exact M|].
     rewrite (compile_renumber ctr ctr' prefix dd bd c ctr1 CC). cbn [bind fst snd]. eexists. split; [reflexivity|].
-    simpl. exists ctr, ctr1. split; [lia|]. split; [f_equal; f_equal; lia | exact PS].
+    simpl. exists ctr, ctr1, ctr'. split; [lia|]. split; [lia|]. split; [reflexivity|]. split; [exact PS|].
+    intros UT. apply (compile_emit_renumber_obj ctr ctr' prefix dd bd c ctr1 CC UT).
   - destruct (f_body entry) as [|l]; [discriminate|]. destruct l as [|ins [|outs [|stmts [|]]]]; try discriminate.
     destruct (dL d_sig ins) as [sins|]; [|discriminate]. destruct (dL d_sig outs) as [souts|]; [|discriminate]. destruct (dL (d_sstmt e) stmts) as [st|]; [|discriminate].
     destruct (run_stmts (load_file fs includes f) prefix new_path st [] [] [] [] ctr) as [[[[comps sigs] lens] k1]|] eqn:RS; [|discriminate]. cbn [bind] in H.
@@ -148,3 +150,46 @@ Corollary compile_top_renumber fs includes ctr b args lines ctr1 : compile_top f
 Proof. unfold compile_top. intros H ctr'. destruct (load_file fs includes 12 ctr b args "" ".") as [[o c1]|] eqn:L; [|discriminate].
   cbn [bind fst snd fix_all] in H. inversion H; subst. destruct (load_file_renumber fs includes 12 ctr b args "" "." o ctr1 L ctr') as [_ [o' [L' R]]].
   exists o, o', (emit_obj 12 o'). rewrite L'. cbn [bind fst snd fix_all]. auto. Qed.
+
+(* ---- the two specifications, line by line ---- *)
+(* a line of the second specification is the corresponding line of the first, or that line with the names of one component
+   renamed through the shift (ren_name p: names under the instance prefix p; rho_c lo hi lo': _Anon(k) -> _Anon(lo' + (k - lo))) *)
+Definition lrel (ctr ctr' : nat) (l l' : pline) : Prop :=
+  l' = l \/ exists p lo hi, ctr <= lo /\ l' = map_line (ren_name p (rho_c lo hi (ctr' + (lo - ctr)))) l.
+
+Lemma Forall2_flat_map {A B C} (R : A -> B -> Prop) (Q : C -> C -> Prop) (fa : A -> list C) (fb : B -> list C) :
+  forall la lb, Forall2 R la lb -> (forall a b, In a la -> R a b -> Forall2 Q (fa a) (fb b)) -> Forall2 Q (flat_map fa la) (flat_map fb lb).
+Proof. induction 1 as [|a b la lb Rab _ IH]; intros H; [constructor|]. simpl. apply Forall2_app; [apply H; [left; reflexivity | exact Rab] | apply IH; intros x y Hx; apply H; right; exact Hx]. Qed.
+
+Lemma loc_name_osim ctr ctr' f p comps comps' l cname : crel (osim ctr ctr' f) comps comps' -> loc_name p comps' l cname = loc_name p comps l cname.
+Proof. intros C. destruct l as [x|s]; [|reflexivity]. simpl. destruct (afind comps cname) as [sub|] eqn:A.
+  - destruct (crel_afind _ _ _ _ _ C A) as [sub' [-> R]]. destruct f as [|f']; [destruct R|].
+    destruct sub as [c|], sub' as [c'|]; simpl in R; try contradiction; [|reflexivity].
+    destruct R as [lo [hi [lo' [_ [_ [-> _]]]]]]. destruct x; reflexivity.
+  - rewrite (crel_afind_none _ _ _ _ C A). reflexivity. Qed.
+
+Theorem emit_obj_renumber ctr ctr' : forall f o o', osim ctr ctr' f o o' -> (forall c, In c (leaves f o) -> user_keys (c_strands c)) ->
+  Forall2 (lrel ctr ctr') (emit_obj f o) (emit_obj f o').
+Proof. induction f as [|f IH]; intros o o' H U; [destruct H|].
+  destruct o as [c|p comps sigs lens i oo], o' as [c'|p' comps' sigs' lens' i' oo']; simpl in H; try contradiction.
+  - destruct H as [lo [hi [lo' [A [B [_ [_ E]]]]]]]. cbn [emit_obj]. rewrite (E (U c (or_introl eq_refl))). subst lo'.
+    clear E. generalize (emit_comp c). intros L. induction L as [|l ls IHl]; simpl; constructor; [right; exists (c_prefix c), lo, hi; auto | exact IHl].
+  - destruct H as (-> & -> & -> & -> & -> & C). cbn [emit_obj]. apply Forall2_app.
+    + apply (Forall2_flat_map (fun x y => fst x = fst y /\ osim ctr ctr' f (snd x) (snd y)) (lrel ctr ctr') (fun '(_, sub) => emit_obj f sub) (fun '(_, sub) => emit_obj f sub) comps comps' C).
+      intros [cn sub] [cn' sub'] Hin [_ R]. simpl in R. apply (IH sub sub' R). intros c Hc. apply U. cbn [leaves]. apply in_flat_map. exists (cn, sub). auto.
+    + assert (E : forall sg : string * list (loc * string * bool),
+                (let '(sname, entries) := sg in
+                 let len := match afind lens sname with Some l => l | None => 0 end in
+                 [PSeq (p +++ sname) (repeat "N"%char len) len; PEqual ((p +++ sname, false) :: map (fun '(l, cname, wc) => (loc_name p comps' l cname, wc)) entries)]) =
+                (let '(sname, entries) := sg in
+                 let len := match afind lens sname with Some l => l | None => 0 end in
+                 [PSeq (p +++ sname) (repeat "N"%char len) len; PEqual ((p +++ sname, false) :: map (fun '(l, cname, wc) => (loc_name p comps l cname, wc)) entries)])).
+      { intros [sname entries]. cbv zeta. f_equal. f_equal. f_equal. f_equal. apply map_ext. intros [[l cname] wc]. rewrite (loc_name_osim ctr ctr' f p comps comps' l cname C). reflexivity. }
+      rewrite (flat_map_ext _ _ E). clear. induction (flat_map _ sigs) as [|l ls IHl]; constructor; [left; reflexivity | exact IHl]. Qed.
+
+(* compile twice, from two histories: the specifications correspond line by line *)
+Corollary compile_top_renumber_lines fs includes ctr b args lines ctr1 : compile_top fs includes ctr b args [] = OK (lines, ctr1) ->
+  (forall o, load_file fs includes 12 ctr b args "" "." = OK (o, ctr1) -> forall c, In c (leaves 12 o) -> user_keys (c_strands c)) ->
+  forall ctr', exists lines', compile_top fs includes ctr' b args [] = OK (lines', ctr' + (ctr1 - ctr)) /\ Forall2 (lrel ctr ctr') lines lines'.
+Proof. intros H U ctr'. destruct (compile_top_renumber fs includes ctr b args lines ctr1 H ctr') as (o & o' & lines' & L & -> & C' & -> & R).
+  exists (emit_obj 12 o'). split; [exact C'|]. apply (emit_obj_renumber ctr ctr' 12 o o' R (U o L)). Qed.
